@@ -1,8 +1,9 @@
 """C07 — iterator/stream/xslices combinators compute their documented sequence function."""
 import vlib
+from scale_common import ScaleSpec
 from pipes_common import PipeSpec, XSlicesAgreeSpec
 
-SPECS = {"iterator": (PipeSpec("iter", False), "harness", "runner"), "stream": (PipeSpec("stream", False), "harness", "runner"), "xslices": (XSlicesAgreeSpec(), "harness", "runner")}
+SPECS = {"scale": (ScaleSpec(['last']), "harness", "runner"), "iterator": (PipeSpec("iter", False), "harness", "runner"), "stream": (PipeSpec("stream", False), "harness", "runner"), "xslices": (XSlicesAgreeSpec(), "harness", "runner")}
 
 PROP_FILES = ["C07"]
 
@@ -16,6 +17,9 @@ def run(ctx):
     vlib.seq_differential(ctx, PipeSpec("iter", faults=False), exe, proofs_ok, tag="iterator")
     vlib.seq_differential(ctx, PipeSpec("stream", faults=False), exe, proofs_ok, tag="stream")
     vlib.seq_differential(ctx, XSlicesAgreeSpec(), exe, proofs_ok, tag="xslices")
+    okS, outS, exeS = vlib.build_runner()
+    if okS:
+        vlib.seq_differential(ctx, ScaleSpec(['last']), exeS, proofs_ok, tag="scale")
     vlib.merge_parts(ctx, "cases = random pipelines (depth 0-4) of the real combinators over instrumented sources (empty, singleton, all-equal, alternating, run at start/end), "
                      "parameters n in {-1,0,1,..,len+1}, consumer = k Next calls (k up to len+3, past the end) or a reducer; compared: every result, the number of source pulls after every step, the source event log; "
                      "distinct = hash of (pipeline, program); non-trivial = at least one combinator and one step")
